@@ -21,7 +21,7 @@ ASSUMPTIONS = hc.COMMON_ASSUMPTIONS + [
     "outside the claim: non-UTC time arguments (C08), invalid arguments (C11/C14)",
 ]
 BOUNDS = {"points": 3}
-HARNESS = {"h_update": hc.h_update}
+HARNESS = {"h_update": hc.h_update, "h_update2": hc.h_update2}
 
 UPDS = {
     "field=sym": {"fields": {"f": SYM}},
@@ -31,6 +31,7 @@ UPDS = {
     "time=sym": {"time": ("static", SYM)},
     "time+1s": {"time": ("callable", 1000000)},
     "time+0": {"time": ("callable", 0)},
+    "time+1s@+05:30": {"time": ("callable_off", 1000000, 19800000000)},
     "meas=n": {"measurement": "n"},
     "meas+x": {"measurement": ("callable", "x")},
     "tags_callable_const": {"tags": ("callable", "const", {"k": "a"})},
@@ -71,6 +72,16 @@ def obligations(tier):
         for via in ("m", "zz"):
             obs.append(_ob(f"handle-update/{via}/{uname}", q=B, upd=u, via=via, ai=True, alpha="sel", torder="ooo", n=3 if th else 2))
             obs.append(_ob(f"handle-update_all/{via}/{uname}", upd=u, all=True, via=via, ai=False, alpha="sel", torder="ooo", n=3 if th else 2))
+    # two successive updates, the second on a subset selected by a symbolic field comparison
+    firsts = {"tags": {"tags": {"site": "A"}}, "fields": {"fields": {"g": 1}}, "tags_callable": {"tags": ("callable", "const", {"site": "A"})}}
+    seconds = {"tags": {"tags": {"site": "B"}}, "unset_tag": {"unset_tags": "site"}, "fields": {"fields": {"g": 2}}, "unset_field": {"unset_fields": ["g"]}}
+    for f1, u1 in firsts.items():
+        for f2, u2 in seconds.items():
+            for cname, ai, rx in CONFIGS[:2]:
+                for tagless in (True, False):
+                    o = _ob(f"upd2/{f1}-then-{f2}/{cname}/{'tagless' if tagless else 'tagged'}", q=("field", "f", "<", SYM), upd=u1, upd2=u2, ai=ai, reindex=rx, tagless=tagless, n=3)
+                    o["harness"] = "h_update2"
+                    obs.append(o)
     obs.append(_ob("upd-op/tag", q=("tag", "k", OP, SYM), upd=UPDS["field=sym"], ai=True, alpha="small", n=3 if th else 2, torder="ooo", split_op=True))
     obs.append(_ob("upd-op/field", q=("field", "f", OP, SYM), upd=UPDS["tag=sym"], ai=True, alpha="sel", n=3 if th else 2, torder="ooo", split_op=True))
     obs.append(_ob("upd-op/time", q=("time", OP, SYM), upd=UPDS["time+1s"], ai=True, alpha="sel", n=3, torder="sym", split_op=True))
